@@ -2,30 +2,44 @@
   Proofs.C15 — lemmas and proofs behind Props/C15.lean.
 -/
 import Spec.Single
+import Proofs.C15Loop
 
 namespace MongoModel.Proofs.C15
-open MongoModel MongoModel.Spec
+open MongoModel MongoModel.Spec MongoModel.Proofs.C15Lemmas
 
 theorem never_empty (cfg : Cfg) (now : Int) (c : Coll) (ordered : Bool) :
-    bulkWrite cfg now c [] ordered = (c, .err .invalidOp) := by sorry
+    bulkWrite cfg now c [] ordered = (c, .err .invalidOp) := by rfl
 
 theorem unordered_eq_seq (cfg : Cfg) (now : Int) (c : Coll) (reqs : List Val)
     (hp : reqs.all plainRequest = true) (hv : bulkPrecheck reqs = .ok ())
     (hne : reqs ≠ [])
     (hw : ∀ e, (bulkWrite cfg now c reqs false).2 ≠ .err e) :
-    (bulkWrite cfg now c reqs false).1 = seqOps cfg now (reqs.map asSingle) c := by sorry
+    (bulkWrite cfg now c reqs false).1 = seqOps cfg now (reqs.map asSingle) c := by
+  rw [bulkWrite_loop cfg now c reqs false hv hne] at hw ⊢
+  exact loop_unordered cfg now reqs hp hv 0 c {} hw
 
 theorem ordered_eq_seq_prefix (cfg : Cfg) (now : Int) (c : Coll) (reqs : List Val)
     (hp : reqs.all plainRequest = true) (hv : bulkPrecheck reqs = .ok ()) (hne : reqs ≠ []) :
     ∃ k, k ≤ reqs.length ∧
       (bulkWrite cfg now c reqs true).1 = seqOps cfg now ((reqs.take k).map asSingle) c ∧
-      ((bulkWrite cfg now c reqs true).2.isErr = false → k = reqs.length) := by sorry
+      ((bulkWrite cfg now c reqs true).2.isErr = false → k = reqs.length) := by
+  rw [bulkWrite_loop cfg now c reqs true hv hne]
+  exact loop_ordered cfg now reqs hp hv 0 c {}
 
 theorem ordered_error_details (cfg : Cfg) (now : Int) (c : Coll) (reqs : List Val) (details : Val)
     (h : (bulkWrite cfg now c reqs true).2 = .bulkErr details) :
     ∃ k code rest, k < reqs.length ∧
       dget "writeErrors" (match details with | .doc fs => fs | _ => []) =
-        some (.arr [.doc [("index", .int k), ("code", code)]]) ∧ details = .doc rest := by sorry
+        some (.arr [.doc [("index", .int k), ("code", code)]]) ∧ details = .doc rest := by
+  unfold bulkWrite at h
+  split at h
+  · cases h
+  · split at h
+    · cases h
+    · obtain ⟨k, code, t', _, h2, h3, h4⟩ := loop_details cfg now reqs 0 c {} details rfl h
+      refine ⟨k, code, _, by omega, ?_, h4⟩
+      subst h4
+      simp [BulkTotals.toVal, dget, h3]
 
 theorem counts_are_sums (cfg : Cfg) (now : Int) (ordered : Bool) (reqs : List Val) (idx : Nat)
     (c : Coll) (t : BulkTotals) (r : Val) (c' : Coll) (f : BulkTotals → BulkTotals)
@@ -33,12 +47,16 @@ theorem counts_are_sums (cfg : Cfg) (now : Int) (ordered : Bool) (reqs : List Va
     bulkLoop cfg now ordered (r :: reqs) idx c t = bulkLoop cfg now ordered reqs (idx + 1) c' (f t) ∧
     (f t).nInserted + (f t).nMatched + (f t).nRemoved + (f t).nUpserted
       ≥ t.nInserted + t.nMatched + t.nRemoved + t.nUpserted ∧
-    (f t).errors = t.errors := by sorry
+    (f t).errors = t.errors := by
+  have hk := one_ok cfg now c c' idx r f h1
+  refine ⟨?_, ok_counts hk t, ok_errors hk t⟩
+  rw [loop_cons, h1]
 
 theorem upserted_ids_by_op_index (cfg : Cfg) (now : Int) (c c' : Coll) (idx : Nat) (r : Val)
     (f : BulkTotals → BulkTotals) (t : BulkTotals)
     (h : bulkOne cfg now c idx r = (c', .ok f)) :
     (f t).upserted = t.upserted ∨
-    ∃ id, (f t).upserted = t.upserted ++ [.doc [("index", .int idx), ("_id", id)]] := by sorry
+    ∃ id, (f t).upserted = t.upserted ++ [.doc [("index", .int idx), ("_id", id)]] :=
+  ok_upserted (one_ok cfg now c c' idx r f h) t
 
 end MongoModel.Proofs.C15
